@@ -216,3 +216,11 @@ func Run(s *plrt.Script, pt *input.Point, sig *Sig) (res Result) {
 	res.Err = s.Run(pt, sg)
 	return res
 }
+
+// CurTraceLen is the number of probe records of the run in progress.
+func CurTraceLen() int {
+	if cur == nil {
+		return 0
+	}
+	return len(cur.Recs)
+}
